@@ -57,6 +57,7 @@ class Verifier:
         self.havoced: set = set()
         self.contracts_used: set = set()
         self.externals_used: set = set()
+        self.pattern_filtered = False
         self.vacuity_obligations: list = []
         import os as _os
 
@@ -934,6 +935,8 @@ class Verifier:
         for pat, hook in self.c.extern_patterns.items():
             if any(_match_pattern(pat, n) for n in nodes):
                 continue
+            if getattr(hook, "accepts_filter", False) and any(_match_pattern(pat, n, allow_added_filter=True) for n in nodes):
+                continue
             try:
                 src = inspect.getsource(hook)
             except (OSError, TypeError):
@@ -950,7 +953,17 @@ class Verifier:
         for pat, fn in self.c.extern_patterns.items():
             if _match_pattern(pat, n):
                 self.externals_used.add(pat)
+                self.pattern_filtered = False
                 return fn(I, n, env)
+        for pat, fn in self.c.extern_patterns.items():
+            # the modelled comprehension with an added `if` filter: hooks that say so are told (fewer elements than the model)
+            if getattr(fn, "accepts_filter", False) and _match_pattern(pat, n, allow_added_filter=True):
+                self.externals_used.add(pat)
+                self.pattern_filtered = True
+                try:
+                    return fn(I, n, env)
+                finally:
+                    self.pattern_filtered = False
         return _MISSING
 
     def import_ok(self, I, base, st):
@@ -1188,8 +1201,9 @@ def _merged(callee: Contract, caller: Contract) -> Contract:
     return m
 
 
-def _match_pattern(pat: str, n: ast.AST) -> bool:
-    """Pattern = python source with `_` wildcards for sub-expressions."""
+def _match_pattern(pat: str, n: ast.AST, allow_added_filter=False) -> bool:
+    """Pattern = python source with `_` wildcards for sub-expressions.  allow_added_filter: a comprehension of the pattern that
+    has no `if` also matches the same comprehension with `if` clauses."""
     p = ast.parse(pat, mode="eval").body
 
     def eq(a, b):
@@ -1199,6 +1213,8 @@ def _match_pattern(pat: str, n: ast.AST) -> bool:
             return False
         for f in a._fields:
             x, y = getattr(a, f, None), getattr(b, f, None)
+            if allow_added_filter and isinstance(a, ast.comprehension) and f == "ifs" and not x:
+                continue
             if isinstance(x, list):
                 if not isinstance(y, list) or len(x) != len(y) or not all(eq(i, j) if isinstance(i, ast.AST) else i == j for i, j in zip(x, y)):
                     return False
